@@ -61,6 +61,7 @@ type w1Oracle struct {
 	primarySeen map[uint32]int
 	spareSeen   [3]map[uint32]int // owner -> second -> receiving replica
 
+	outage    [3]time.Duration // how long each replica was down (single-replica-outage scenario)
 	startUnix uint32
 }
 
@@ -723,6 +724,9 @@ func (o *w1Oracle) final(w *w1World) {
 			per[rp]++
 		}
 		total := len(o.spareSeen[owner])
+		if w.cfg.spareScenario && total == 0 && o.outage[owner] >= 30*time.Second {
+			fails = append(fails, w1Fail{"C10", "no_spare_traffic", "outage", fmt.Sprintf("r%d was down for %v while both other replicas were undisturbed, but no second it owns was ever sent to a spare replica", owner+1, o.outage[owner].Round(time.Second))})
+		}
 		if total < 6 || !w.cfg.spareScenario {
 			continue // the share is decided only where the two other replicas were never disturbed
 		}
